@@ -65,9 +65,10 @@ class StaticCheck(Check):
         "the model chunks any array with >= 1 element per chunk; the library only chunks n >= 2^15 (real-path executions are recorded with the OpenMP thread count of the environment)"]
     rule = ("model: every sorted array with duplicates of the stated universe S(U,N), every query -1..Sentinel-1, every rounding choice; "
             "traces: every array of S(8,5)/S(6,4) at three placements in the key type, structured generators (duplicate runs around 2eps+2, "
-            "saw-tooth tight on the band, collinear stretches, steep/flat steps, chunk seams) for 35 template configurations over 10 key types, "
+            "saw-tooth tight on the band, collinear stretches, steep/flat steps, chunk seams, convex / concave curves and curve + far key + dense run with hulls of "
+            "hundreds of vertices) for 35 template configurations over 10 key types, "
             "forced chunk counts 2..20 and the library's own chunked path (n >= 2^15); queries: sampled present keys, key+-1, gap midpoints, "
-            "first-1, last+1, lowest, max-1, powers of two away")
+            "first-1, first, 0, last, last+1, lowest, max-1, powers of two away; repeated queries and boundary queries as the first query of an unqueried copy")
 
     def pgm_models(self, tier, work):
         ms = []
